@@ -21,7 +21,9 @@ Unmasked(ids, masked) == SelectSeq(ids, LAMBDA p : p \notin masked)
 
 \* ---- configurations (spec -> code) ---------------------------------------
 Entries ==
-    [entry : {"kk"}, variant : {"complex-fixed", "real-fixed", "imaginary-fixed", "complex-inv-fixed", "cnls-fixed", "auto", "auto-admittance"}]
+    [entry : {"kk"}, variant : {"complex-Z", "real-Z", "imaginary-Z", "complex-inv-Z", "real-inv-Z", "imaginary-inv-Z", "cnls-Z",
+                                  "complex-Y", "real-Y", "imaginary-Y", "complex-inv-Y", "real-inv-Y", "imaginary-inv-Y", "cnls-Y",
+                                  "auto", "auto-admittance"}]
     \cup [entry : {"kk-exploratory", "kk-log-F-ext"}, variant : {"real", "complex"}]
     \cup [entry : {"zhit"}, variant : {"default", "auto", "admittance", "custom-weights"}]
     \cup [entry : {"drt"}, variant : {"tr-nnls-real", "tr-nnls-imaginary", "lm", "bht", "mrq-fit"}]
